@@ -53,7 +53,15 @@ def main():
                 mism.append(dict(thread=t, job=jobs[idx], serial=str(expected[idx])[:300], concurrent=str(got)[:300]))
                 if len(mism) >= 3:
                     break
-    json.dump(dict(file=sf.__file__, mismatches=mism, calls=sum(len(r) for r in results), alive=sum(t.is_alive() for t in ths)), sys.stdout)
+    # what every (thread, job) returned, deduplicated, for comparison with a serial run in another process
+    distinct = {}
+    for t in range(T):
+        for idx, got in results[t]:
+            distinct.setdefault(idx, [])
+            if got not in distinct[idx]:
+                distinct[idx].append(got)
+    json.dump(dict(file=sf.__file__, mismatches=mism, calls=sum(len(r) for r in results), alive=sum(t.is_alive() for t in ths),
+                   serial_after=expected, concurrent_distinct={str(k): v for k, v in distinct.items()}), sys.stdout)
 
 
 if __name__ == "__main__":
